@@ -22,7 +22,15 @@ func (e *Event /*{{- if hasParams}}{{paramCount}}{{"["}}{{types}}{{"]"}}{{end}}*
 		return
 	}
 
-	e.hooks.ForEach(func(_ uint64, hook *Hook[func( /*{{- types -}}*/ )]) bool {
+	// a trigger reaches the hooks that were attached before it began: hooks that are attached while it is in progress
+	// (for example by a hook that links an event to this one again) are left to the next trigger
+	lastHookID := e.hooksCounter.Load()
+
+	e.hooks.ForEach(func(hookID uint64, hook *Hook[func( /*{{- types -}}*/ )]) bool {
+		if hookID > lastHookID {
+			return true
+		}
+
 		if hook.currentTriggerExceedsMaxTriggerCount() {
 			hook.Unhook()
 
